@@ -26,6 +26,14 @@ for (const [en, variants] of Object.entries(spec)) {
                 const back = new cls(rt.internalConstructor, obj.ffiValue);
                 r.back = back === undefined ? null : back.value;
                 if (typeof obj.ident === "function") { const b2 = obj.ident(); r.viaWasm = b2 === undefined ? null : b2.value; }
+                // the path used for enums that come back through linear memory (struct fields, Option<Enum>, Result payloads):
+                // Rust stores the discriminant as an i32, the binding reads it with enumDiscriminant and constructs the variant
+                const ptr = stub.default.diplomat_alloc(4, 4);
+                new DataView(stub.default.memory.buffer).setInt32(ptr, obj.ffiValue, true);
+                const disc = rt.enumDiscriminant(stub.default, ptr);
+                r.memDisc = disc;
+                const viaMem = new cls(rt.internalConstructor, disc);
+                r.viaMemory = viaMem === undefined || viaMem === null ? null : (viaMem.value === undefined ? null : viaMem.value);
             }
         } catch (e) { r.error = String(e); }
         out[en][v] = r;
